@@ -204,6 +204,23 @@ func Corpus() []*Schema {
 			{"x_tint", 103, "enum:Color=COLOR_V1", "ext:Base"}, {"x_ratio", 104, "double=1.5", "ext:Base"}, {"x_blob", 105, "bytes=ab", "ext:Base"},
 			{"x_z", 106, "sint64=-9", "ext:Base"}, {"x_u", 107, "uint32=3", "ext:Base"}, {"x_plain", 108, "int64", "ext:Base"}}}},
 		FileExt: []F{{"x_top", 120, "fixed64=11", "ext:Base"}}})
+	// extension RANGES: bounded ranges, a range of a single number, several ranges per message, "to max", ranges wedged
+	// between ordinary field numbers; an extension at the first and at the last number of every range and at 2^29-1
+	// (the end of a range is exclusive in descriptor.proto and protoreflect.FieldRanges, inclusive in the v1-style
+	// ExtensionRange{Start, End} of gogo / golang: every place that converts or tests a range has a boundary to get
+	// wrong); a second and a third extendee whose extensions reuse the same numbers with other types
+	cs = append(cs, &Schema{ID: "extranges", Syntax: "proto2", Enums: []E{color},
+		Messages: []M{
+			{Name: "Bounded", Fields: []F{{"id", 1, "int32", "opt"}, {"name", 2, "string", "opt"}}, Ranges: [][2]int32{{100, 200}, {300, 301}, {1000, 536870912}}},
+			{Name: "Other", Fields: []F{{"id", 1, "int32", "opt"}}, Ranges: [][2]int32{{100, 200}, {536870911, 536870912}}},
+			{Name: "Tiny", Fields: []F{{"id", 1, "int32", "opt"}, {"name", 3, "string", "opt"}, {"tail", 6, "bool", "opt"}}, Ranges: [][2]int32{{2, 3}, {4, 6}}},
+			{Name: "H", Fields: []F{{"note", 1, "string", "opt"}}, Ext: []F{
+				{"b_first", 100, "int32", "ext:Bounded"}, {"b_mid", 150, "string", "ext:Bounded"}, {"b_msg", 198, "msg:H", "ext:Bounded"}, {"b_last", 199, "sint64", "ext:Bounded"},
+				{"b_single", 300, "bool", "ext:Bounded"}, {"b_lo", 1000, "bytes", "ext:Bounded"}, {"b_enum", 1001, "enum:Color", "ext:Bounded"},
+				{"b_below_max", 536870910, "double", "ext:Bounded"}, {"b_max", 536870911, "uint64", "ext:Bounded"},
+				{"o_first", 100, "string", "ext:Other"}, {"o_max", 536870911, "sint32", "ext:Other"},
+				{"t_two", 2, "int32", "ext:Tiny"}, {"t_four", 4, "string", "ext:Tiny"}, {"t_five", 5, "fixed32", "ext:Tiny"}}}},
+		FileExt: []F{{"o_last", 199, "int32", "ext:Other"}, {"o_mid_msg", 150, "msg:H", "ext:Other"}}})
 	// two messages whose short names coincide when lower-cased: one output file name for both with
 	// filepermessage=true (open finding B15)
 	cs = append(cs, &Schema{ID: "samename", Syntax: "proto3", Messages: []M{{Name: "Outer", Fields: []F{{"a", 1, "int32", "opt"}},
